@@ -71,6 +71,18 @@ def execute_split(sc: dict, segments: list) -> dict:
         sinks[i] = []
         mc.file_manager.attach_observer(f"rec{i}", make_recorder(mc, iv, sinks[i]))
     counts = []
+    if sc.get("precreate") and len(segments) > 1 and all(s["entry"] in ("irun", "srun") for s in segments):
+        # all pieces are requested first and only then iterated one after the other
+        is_mc = hasattr(mc, "moves")
+        gens = [(mc.srun(s["n"]) if (s["entry"] == "srun" and is_mc) else mc.irun(s["n"])) for s in segments]
+        for seg, g in zip(segments, gens):
+            before = mc.step_count
+            for step in g:
+                if is_mc and seg["entry"] != "srun":
+                    for _ in step:
+                        pass
+            counts.append(mc.step_count - before)
+        segments = []
     for seg in segments:
         before = mc.step_count
         drive(mc, seg["entry"], seg["n"])
@@ -137,6 +149,10 @@ class C15(HistoryCampaign):
         for _ in range(nzero):
             parts.insert(rnd.randint(0, len(parts)), 0)
         sc["segments"] = [{"entry": rnd.choice(["run", "srun", "irun"]), "n": k} for k in parts]
+        if rnd.random() < 0.2:
+            for s in sc["segments"]:
+                s["entry"] = rnd.choice(["irun", "srun"])
+            sc["precreate"] = True
         sc["recorders"] = [rnd.choice(INTERVALS) for _ in range(rnd.randint(1, 4))]
         files = {"logging_interval": rnd.choice([1, 1, 2, 3]), "logging_mode": rnd.choice(["a", "w"])}
         for role in ("logfile", "trajectory", "restart_file"):
@@ -156,7 +172,7 @@ class C15(HistoryCampaign):
         n = sum(s["n"] for s in sc["segments"])
         try:
             split = execute_split(sc, sc["segments"])
-            single = execute_split(sc, [{"entry": "run", "n": n}])
+            single = execute_split(dict(sc, precreate=False), [{"entry": "run", "n": n}])
         except Exception as e:  # noqa: BLE001
             info = classify_exception(e)
             if info["harness"]:
